@@ -1201,6 +1201,24 @@ func (e *Engine) evalCall(ctx *EvalCtx, x *Expr) (Val, error) {
 			}
 			return e.convert(ctx.f, ctx.st, a, to, token.NoPos), nil
 		}
+	case "typeis", "cast":
+		if len(x.Args) != 2 || x.Args[1].Op != "lit" || x.Args[1].Kind != "string" {
+			return Val{}, fmt.Errorf("%s(value, \"type\")", name)
+		}
+		v, err := e.eval(ctx, x.Args[0])
+		if err != nil {
+			return Val{}, err
+		}
+		t, err := e.resolveType(ctx, x.Args[1].Lit)
+		if err != nil {
+			return Val{}, err
+		}
+		box, unbox := e.boxFn(t)
+		_ = box
+		if name == "typeis" {
+			return boolVal(fmt.Sprintf("(= (iface.tag %s) %d)", v.S, e.typeTag(t))), nil
+		}
+		return Val{T: t, S: fmt.Sprintf("(%s %s)", unbox, v.S)}, nil
 	case "utf8valid":
 		vs, err := args()
 		if err != nil {
@@ -1452,6 +1470,27 @@ func (e *Engine) evalMethodCall(ctx *EvalCtx, x *Expr) (Val, error) {
 		}
 		vs = append(vs, v)
 	}
+	if _, isIface := recv.T.Underlying().(*types.Interface); isIface {
+		// interface method with a pure interface contract: the same uninterpreted function as at call sites
+		if c := e.ifaceContractByType(recv.T, mname); c != nil && c.Pure {
+			obj, _, _ := types.LookupFieldOrMethod(recv.T, true, ctx.pkg, mname)
+			if m, ok := obj.(*types.Func); ok {
+				sig := m.Type().(*types.Signature)
+				if sig.Results().Len() == 1 {
+					all := append([]Val{recv}, vs...)
+					for i := 0; i < sig.Params().Len() && i+1 < len(all); i++ {
+						_, a := e.coerceInts(Val{T: sig.Params().At(i).Type()}, all[i+1])
+						a.T = sig.Params().At(i).Type()
+						all[i+1] = a
+					}
+					if v, ok := e.pureApply(c, 0, sig.Results().At(0).Type(), all); ok {
+						return v, nil
+					}
+				}
+			}
+		}
+		return Val{}, fmt.Errorf("interface method %s needs a pure interface contract to be used in a specification", mname)
+	}
 	sel := e.P.SSA.MethodSets.MethodSet(recv.T).Lookup(ctx.pkg, mname)
 	if sel == nil {
 		sel = e.P.SSA.MethodSets.MethodSet(types.NewPointer(recv.T)).Lookup(ctx.pkg, mname)
@@ -1478,7 +1517,22 @@ func (e *Engine) evalMethodCall(ctx *EvalCtx, x *Expr) (Val, error) {
 }
 
 // callPure symbolically inlines a real Go function inside a specification (no obligations are generated).
+// A function whose contract is marked pure is the same uninterpreted function as at its call sites.
 func (e *Engine) callPure(ctx *EvalCtx, fn *ssa.Function, args []Val) (Val, error) {
+	if c := e.P.ContractFor(fn); c != nil && c.Pure {
+		if fn.Signature.Results().Len() == 1 {
+			for i, p := range fn.Params {
+				if i < len(args) {
+					_, a := e.coerceInts(Val{T: p.Type()}, args[i])
+					a.T = p.Type()
+					args[i] = a
+				}
+			}
+			if v, ok := e.pureApply(c, 0, fn.Signature.Results().At(0).Type(), args); ok {
+				return v, nil
+			}
+		}
+	}
 	if len(fn.Blocks) == 0 {
 		return Val{}, fmt.Errorf("function %s has no body", fn.Name())
 	}
